@@ -25,6 +25,8 @@ type streamObs struct {
 	Reader    *SimReader
 	Stable    string // "" or description of a changed earlier block
 	NextCalls int
+	// EagerRewrites counts blocks completed between two NextBlock calls
+	EagerRewrites int
 }
 
 func applyKnobs(k map[string]int) {
@@ -43,6 +45,16 @@ func runStream(doc []byte, rs *ReaderScn) *streamObs { return runStreamWith(doc,
 func runStreamWith(doc []byte, rs *ReaderScn, sharedIP *commonmark.InlineParser) *streamObs {
 	seq := 0
 	obs := &streamObs{Refs: make(commonmark.ReferenceMap)}
+	var eager *commonmark.InlineParser
+	var firstRefs commonmark.ReferenceMap
+	if rs.Consumer != "" && sharedIP == nil {
+		// first pass of the two-pass recipe: same stream, same schedule, same
+		// fault; only its reference map is kept
+		first := *rs
+		first.Consumer = ""
+		firstRefs = runStreamWith(doc, &first, nil).Refs
+		eager = &commonmark.InlineParser{ReferenceMatcher: firstRefs}
+	}
 	rd := newSimReader(doc, rs, &seq)
 	obs.Reader = rd
 	p := commonmark.NewBlockParser(rd.asReader())
@@ -61,10 +73,19 @@ func runStreamWith(doc []byte, rs *ReaderScn, sharedIP *commonmark.InlineParser)
 			break
 		}
 		obs.Blocks = append(obs.Blocks, b)
-		obs.AtSnap = append(obs.AtSnap, snapRoot(b))
 		obs.Delivered = append(obs.Delivered, rd.Delivered())
 		obs.ReadsAt = append(obs.ReadsAt, rd.Reads)
 		obs.Refs.Extract(b.Source, b.AsNode())
+		if eager != nil {
+			eager.Rewrite(b)
+			obs.EagerRewrites++
+			if rs.Consumer == "eager-use" {
+				one := []*commonmark.RootBlock{b}
+				_ = (&commonmark.HTMLRenderer{ReferenceMap: firstRefs}).Render(io.Discard, one)
+				_ = formatBlocks(io.Discard, one)
+			}
+		}
+		obs.AtSnap = append(obs.AtSnap, snapRoot(b))
 		if len(obs.Blocks) > 4*len(doc)+16 {
 			obs.FirstErr = errors.New("harness: more blocks than bytes")
 			break
@@ -92,8 +113,13 @@ func runStreamWith(doc []byte, rs *ReaderScn, sharedIP *commonmark.InlineParser)
 	if sharedIP != nil {
 		ip = sharedIP
 	}
-	for _, b := range obs.Blocks {
-		ip.Rewrite(b)
+	if eager == nil {
+		for _, b := range obs.Blocks {
+			ip.Rewrite(b)
+		}
+	} else if n := len(obs.Blocks); n > len(obs.AtSnap) {
+		// a block that arrived together with the terminal error
+		eager.Rewrite(obs.Blocks[n-1])
 	}
 	return obs
 }
